@@ -12,7 +12,7 @@ if [ $rc -ne 0 ]; then
   mkdir -p $V/replays; f=$V/replays/$prop-E4-native-seed$seed.txt; echo "$nat" > $f
   echo "  [E4/native] $(echo "$nat" | grep -m1 E4-VIOLATION | cut -c1-300)"; echo "VIOLATION property=$prop replay=$f"; exit 1
 fi
-miri=$(MIRIFLAGS="-Zmiri-many-seeds=0..$MS -Zmiri-disable-isolation" RUSTFLAGS="--cfg futures_buffered_verif" cargo +nightly miri run --quiet --target-dir $V/target/threads-miri -- --seed $seed --iters $MI --max-children 3 2>&1); rc=$?
+miri=$(MIRIFLAGS="-Zmiri-many-seeds=0..$MS -Zmiri-disable-stacked-borrows" RUSTFLAGS="--cfg futures_buffered_verif" cargo +nightly miri run --quiet --target-dir $V/target/threads-miri -- --seed $seed --iters $MI --max-children 3 2>&1); rc=$?
 okc=$(echo "$miri" | grep -c '^E4 ok')
 if echo "$miri" | grep -q "Undefined Behavior\|E4-VIOLATION\|error: memory leaked"; then
   mkdir -p $V/replays; f=$V/replays/$prop-E4-miri-seed$seed.txt; echo "$miri" > $f
